@@ -214,8 +214,16 @@ func allocBytes() uint64 {
 	return 0
 }
 
+// "memory proportional to the input": a clean decode of the largest generated
+// value allocates a few MiB (a gob.Decoder compiles its engine per call); the
+// bound is an order of magnitude above that plus 16 KiB per input byte, so
+// only an allocation driven by a number read from the input trips it.
+// MaxAlloc is the largest allocation growth seen during one decode in this process.
+var MaxAlloc uint64
+
 const (
-	allocBound = 256 << 20
+	allocBound   = 64 << 20
+	allocPerByte = 16 << 10
 )
 
 // guarded runs fn under the panic oracle; stage names what was running.
@@ -272,7 +280,11 @@ func readAndExercise(c *core.Ctx, e *entry, input []byte, cleanSteps int64) (val
 	if !ok {
 		return nil, nil, steps
 	}
-	if grown := allocBytes() - a0; grown > allocBound+4096*uint64(len(input)) {
+	grown := allocBytes() - a0
+	if grown > MaxAlloc {
+		MaxAlloc = grown
+	}
+	if grown > allocBound+allocPerByte*uint64(len(input)) {
 		c.Fail("alloc", "C04/alloc/decode/"+e.codec, "decode of %d bytes at %s allocated %d MiB", len(input), e.name, grown>>20)
 		c.PlanOut = &core.Plan{Property: "C04", Tier: c.Tier, Mode: "direct", Entry: e.name, Input: append([]byte{}, input...)}
 		return nil, nil, steps
@@ -474,6 +486,11 @@ func run(c *core.Ctx) {
 
 func finish(c *core.Ctx, e *entry, what string, _ any) {
 	c.Rec.Ops = 1
+	if c.Rec.Probes == nil {
+		c.Rec.Probes = map[string]int{}
+	}
+	// (a gauge, merged by maximum in the parent: key prefix "max_")
+	c.Rec.Probes["max_decode_alloc_kib"] = int(MaxAlloc >> 10)
 	c.Rec.CaseHash = core.HashStr(fmt.Sprintf("%d|%s|%s", c.Rec.Seed, e.name, what))
 }
 
